@@ -181,7 +181,7 @@ def o1_los(rep):
 def replay_conic(data):
     from resonaate.sensors.field_of_view import ConicFoV
 
-    v, w, cone = np.array(data["v"] + [0, 0, 0.0]), np.array(data["w"] + [0, 0, 0.0]), data["cone"]
+    v, w, cone = np.array(data["v"] + data.get("vv", [0, 0, 0.0])), np.array(data["w"] + data.get("wv", [0, 0, 0.0])), data["cone"]
     got = bool(ConicFoV(cone).inFieldOfView(v, w))
     cosang = (v[:3] @ w[:3]) / math.sqrt((v[:3] @ v[:3]) * (w[:3] @ w[:3]))
     ang = math.acos(max(-1.0, min(1.0, cosang)))
@@ -208,7 +208,8 @@ def o2_conic(rep):
     def run():
         v, w = reals("v", 6), reals("w", 6)
         th = real("theta")
-        cut = GramCut({"v": v[:3], "w": w[:3]}, M.vdot, M.norm)
+        # the arguments are 6-element SEZ states: the velocity halves are named too, so that a product taken over the whole states is still a sum of cut variables
+        cut = GramCut({"v": v[:3], "w": w[:3], "vv": v[3:], "wv": w[3:]}, M.vdot, M.norm, sums=True)
         # half cone as an angle h = arccos(ch): the arccos contract then relates it monotonically to the offset angle
         ch = real("cos_half")
         h = ch.arccos()
@@ -227,7 +228,8 @@ def o2_conic(rep):
     results = explore(run, max_paths=64)
     n_ok = 0
     a, b, c = z3.Real("G_v_v"), z3.Real("G_w_w"), z3.Real("G_v_w")
-    facts = [a > 0, b > 0, a * b - c * c >= 0, z3.Real("cos_half") >= -1, z3.Real("cos_half") <= 1]
+    a2, b2, c2 = z3.Real("G_vv_vv"), z3.Real("G_wv_wv"), z3.Real("G_vv_wv")
+    facts = [a > 0, b > 0, a * b - c * c >= 0, z3.Real("cos_half") >= -1, z3.Real("cos_half") <= 1, a2 >= 0, b2 >= 0, a2 * b2 - c2 * c2 >= 0]
     for r in results:
         tag = "".join("T" if d else "F" for d in r.path.decisions)
         if r.exc is not None:
@@ -262,7 +264,14 @@ def o2_conic(rep):
 def _conic_inputs_raw(m):
     a, b, c = (mfloat(m, z3.Real(n)) for n in ("G_v_v", "G_w_w", "G_v_w"))
     x = c / math.sqrt(a)
-    return {"v": [math.sqrt(a), 0.0, 0.0], "w": [x, math.sqrt(max(b - x * x, 0.0)), 0.0]}
+    out = {"v": [math.sqrt(a), 0.0, 0.0], "w": [x, math.sqrt(max(b - x * x, 0.0)), 0.0]}
+    a2, b2, c2 = (mfloat(m, z3.Real(n)) for n in ("G_vv_vv", "G_wv_wv", "G_vv_wv"))  # velocity halves (zero unless the path refers to them)
+    if a2 > 0:
+        x2 = c2 / math.sqrt(a2)
+        out["vv"], out["wv"] = [math.sqrt(a2), 0.0, 0.0], [x2, math.sqrt(max(b2 - x2 * x2, 0.0)), 0.0]
+    elif b2 > 0:
+        out["vv"], out["wv"] = [0.0, 0.0, 0.0], [math.sqrt(b2), 0.0, 0.0]
+    return out
 
 
 # ------------------------------------------------------------------------------
